@@ -12,7 +12,7 @@ import re
 import subprocess
 import sys
 
-WT = '/tmp/seedverify-wt'
+WT = os.environ.get('SEEDVERIFY_WT', '/tmp/seedverify-wt')
 ENV = dict(os.environ, CARGO_NET_OFFLINE='true', CARGO_INCREMENTAL='0', CARGO_PROFILE_DEV_DEBUG='0', CARGO_PROFILE_TEST_DEBUG='0',
            CARGO_TARGET_DIR=WT + '/target')
 
